@@ -94,12 +94,24 @@ def distVariants (a b : Loc) (offset : Int) : Int :=
   min (min (iabs (a.start - b.end + offset)) (iabs (a.end - b.start + offset)))
       (min (iabs (b.start - a.end + offset)) (iabs (b.end - a.start + offset)))
 
-/-- `get_distance_between_locations(first, second, wrap_point)`; `wrap = 0` plays the role of
-    both `None` and `0` (the code tests truthiness). -/
+/-- the single-part formula of `get_distance_between_locations` (four variants, `% wrap`, then
+    the minimum with the linear distance); `wrap = 0` plays the role of both `None` and `0`
+    (the code tests truthiness). -/
+def simpleDistance (a b : Loc) (wrap : Int) : Int :=
+  if wrap = 0 then distVariants a b 0
+  else min ((distVariants a b wrap) % wrap) (distVariants a b 0)
+
+/-- distance between two single parts, as the recursive call on `(first_part, second_part)` computes it -/
+def partDistance (p q : Part) (wrap : Int) : Int :=
+  if partsOverlap p q then 0 else simpleDistance (.simple p) (.simple q) wrap
+
+/-- `get_distance_between_locations(first, second, wrap_point)`: 0 when overlapping; multi-part
+    locations are measured part by part (minimum over all pairs of parts). -/
 def getDistance (a b : Loc) (wrap : Int := 0) : Int :=
   if locationsOverlap a b then 0
-  else if wrap = 0 then distVariants a b 0
-  else min ((distVariants a b wrap) % wrap) (distVariants a b 0)
+  else if a.parts.length > 1 || b.parts.length > 1 then
+    minList (a.parts.flatMap fun p => b.parts.map fun q => partDistance p q wrap)
+  else simpleDistance a b wrap
 
 /-- `check` inside `location_bridges_origin`: exon order invalid for the strand -/
 def orderInvalid (rev : Bool) : List Part → Bool
